@@ -30,9 +30,10 @@ import (
 )
 
 const (
-	repo    = "/repo"
 	vrtPath = "github.com/jotaen/klog/klog/verifrt/vrt"
 )
+
+var repo = "/repo"
 
 type report struct {
 	Mode           string   `json:"mode"`
@@ -45,6 +46,7 @@ type report struct {
 func main() {
 	out := flag.String("out", ".work/instr", "output directory")
 	mode := flag.String("mode", "full", "full | maps | none")
+	flag.StringVar(&repo, "repo", "/repo", "the klog tree to instrument")
 	flag.Parse()
 	if abs, err := filepath.Abs(*out); err == nil {
 		*out = abs
